@@ -9,6 +9,7 @@ import scipy.signal
 import scipy.stats
 
 from mc.engine import Clause, Res
+from mc import layouts as _layouts
 from mc import synth
 
 import neuropixel
@@ -57,6 +58,16 @@ def _interp_one(h, labels, datasets, seen, ctx):
     bad = np.flatnonzero((labels == 1) | (labels == 2))
     ok = np.flatnonzero((labels == 0) | (labels == 3))
     ntr = 0
+    datasets = list(datasets)
+    if bad.size and ok.size:
+        # a non-finite sample on a non-bad channel that is no neighbour of any bad channel must not reach the repaired channels
+        dmin = np.min(np.sqrt((x[ok][:, None] - x[bad][None, :]) ** 2 + (y[ok][:, None] - y[bad][None, :]) ** 2), axis=1)
+        far = ok[dmin > 2 * NEAR_UM]
+        if far.size:
+            dn = datasets[-1][1].copy()
+            dn[far[0], 3] = np.nan
+            dn[far[-1], 5] = np.inf
+            datasets.append(("non-finite-far-away", dn))
     for name, data in datasets:
         d0 = data.copy()
         # bad channels carry absurd values: if they leaked into a repaired channel it would leave the range of the good ones
@@ -66,8 +77,8 @@ def _interp_one(h, labels, datasets, seen, ctx):
         if out.shape != d0.shape:
             seen.setdefault("interp:shape", "%s: output shape %r" % (ctx, out.shape))
             continue
-        if not np.array_equal(out[ok], d0[ok]):
-            w = ok[np.flatnonzero(np.any(out[ok] != d0[ok], axis=1))[0]]
+        if not np.array_equal(out[ok], d0[ok], equal_nan=True):
+            w = ok[np.flatnonzero(np.any((out[ok] != d0[ok]) & ~(np.isnan(out[ok]) & np.isnan(d0[ok])), axis=1))[0]]
             seen.setdefault("interp:touched-good", "%s data=%s: channel %d (label %d) is not returned bit-identical" % (ctx, name, w, labels[w]))
         for i in bad:
             dist = np.sqrt((x - x[i]) ** 2 + (y - y[i]) ** 2)
@@ -79,6 +90,10 @@ def _interp_one(h, labels, datasets, seen, ctx):
                 continue
             lo, hi = d0[near].min(axis=0), d0[near].max(axis=0)
             tol = 1e-9 * (np.abs(lo) + np.abs(hi) + 1e-30)
+            if np.all(np.isfinite(lo) & np.isfinite(hi)) and not np.all(np.isfinite(row)):
+                seen.setdefault("interp:not-finite", "%s data=%s: repaired channel %d holds %d non-finite samples although all non-bad channels within %g um are finite"
+                                % (ctx, name, i, int(np.sum(~np.isfinite(row))), NEAR_UM))
+                continue
             if np.all(row == 0) and not np.all((lo <= tol) & (hi >= -tol)):
                 # zeroed although it has neighbours: only acceptable if all of them are below the kernel cut
                 if np.min(dist[near]) < 60:
@@ -234,14 +249,15 @@ def detect_check(case):
 
 # ------------------------------------------------------------------ labels from a file = per-channel mode over its batches
 def file_cases(tier, seed):
-    return [("bin", 0), ("cbin", 1)] if tier == "quick" else [("bin", 0), ("cbin", 1), ("bin", 2)]
+    # variant 3: a file whose last three batches are blank (zero padded stretch) - blank batches vote like any other batch
+    return [("bin", 0), ("cbin", 1), ("bin", 3)] if tier == "quick" else [("bin", 0), ("cbin", 1), ("bin", 2), ("bin", 3), ("cbin", 3)]
 
 
 def file_check(case):
     suffix, variant = case
     d = synth.proc_scratch(clean=True)
-    nb, bd = 7, 0.3
-    ns = int(round(nb * bd * FS))          # the seven batches tile the file without overlap
+    nb, bd = (7, 0.3) if variant != 3 else (10, 0.3)
+    ns = int(round(nb * bd * FS))          # the batches tile the file without overlap
     bg, common, gain, indep = background(ns=ns, seed=SEED[0] + variant)
     raw = bg.copy()
     nc = raw.shape[0]
@@ -268,6 +284,10 @@ def file_check(case):
                 else:
                     raw[ch, sl] += 150e-6 * rng.standard_normal(sl.stop - sl.start)
                 bi += 1
+    if variant == 3:
+        sl = slice(starts[0], starts[0] + 4 * int(bd * FS))
+        raw[100, sl] = 0                       # silent in 4 of the 7 recorded batches ...
+        raw[:, starts[7]:] = 0                 # ... and the last three batches of the file are blank
     # non overlapping batches are needed for the plan to be exact: check
     s2v = 2.34375e-06
     ints = np.clip(np.round(raw / s2v), -32768, 32767).astype(np.int16)
@@ -323,5 +343,6 @@ CHECK = {
         Clause("interpolate", "interpolate_bad_channels on every label vector / cluster", cases=interp_cases, check=interp_check, setup=_setup),
         Clause("detect", "detect_bad_channels finds every injected fault and nothing else", cases=detect_cases, check=detect_check, setup=_setup),
         Clause("detect-file", "detect_bad_channels_cbin = per-channel mode over batches", cases=file_cases, check=file_check, setup=_setup),
+        _layouts.make_clause(__import__("checks._layout_specs", fromlist=["x"]).c15()),
     ],
 }
